@@ -662,6 +662,12 @@ def gen_rt(seed: int, tier: str = "quick") -> Dict[str, Any]:
             s["stub"] = "async"
             s["beh"]["async_calls"] = [{"kind": "set_event", "p": rng.choice([0.3, 0.6]),
                                         "t": rng.choice([1, 2, 3]), "reraise": True}]
+    blocking = False
+    for s in sims:
+        if s["transport"] in ("gated", "stock") and rng.random() < 0.2:
+            # computes synchronously for up to a few periods (blocks mosaik's event loop)
+            s["beh"]["block"] = rng.choice([[0, period / 2], [0, 0, 1.5 * period], [3.5 * period, 0, 0, 0]])
+            blocking = True
     durations = rng.choice([[0.0], [0.0], [0.0, period / 4], [0.0, period / 4, period / 2],
                             [0.0, period / 2, period, 3 * period]])
     sched = {"profile": "uniform", "seed": rng.randrange(1 << 30), "unit": 1.0, "choices": durations}
@@ -689,7 +695,7 @@ def gen_rt(seed: int, tier: str = "quick") -> Dict[str, Any]:
            "start_seed": None, "connect_seed": None, "order_seed": None, "iteration_cost": 0.0,
            "time_resolution": tr, "rt_factor": f if rt_on else None, "rt_strict": rng.random() < 0.3}
     sc = {"groups": groups, "sims": sims, "conns": conns, "until": until, "config": cfg,
-          "rt": {"f": f, "tr": tr, "dyadic": dyadic, "durations": durations}}
+          "rt": {"f": f, "tr": tr, "dyadic": dyadic, "durations": durations, "blocking": blocking}}
     repair_cycles(sc, rng)
     return {"scenario": sc, "schedule": sched}
 
